@@ -28,7 +28,7 @@ func init() {
 				"into a clone is read from the original, and the per-type clone and release switches name the same types. R6: " +
 				"the fields of the pooled request information are written only by the rate-limit middleware that owns it.",
 			NotCovered: "equivalence of concurrent and sequential executions over all schedules (the property's quantifier); sync.Pool's own semantics.",
-			Rules: map[string]string{"C07-R24": "the simple cache hands out copies: every record that fromCacheItem puts into a served message is a dns.Copy of the cached record on every path (the server disposes of served messages into the cloner's pools, where they are overwritten by other clients' answers)", "C07-R23": "every server's rate-limit / request-info middleware is built from a configuration object of its own (shared with C15-R6): a constructor that keeps its configuration sees this server's group, filtering group and device finder, not the last server's", "C07-R21": "the rule list compiled from a profile's custom rules has no result cache (rulelist.ResultCacheEmpty): the cache key has neither the device name nor the address, which $client rules look at, so one device's verdict would be served to the profile's other devices", "C07-R22": "address objects obtained from a connection (LocalAddr, RemoteAddr) are shared by every session of that connection and are never written: every store into a field of a net.UDPAddr / net.TCPAddr in netext and bindtodevice goes to an object allocated in the same function", "C07-R20": "the plain forwarder unpacks exactly the bytes of this read (buf[:n]), never the rest of a pooled buffer that still holds an earlier response (shared with C17-R4)", "C07-R19": "rule lists that are shared by all profiles are asked without the requester's device name; only the profile's own custom list gets it (shared with C02-R3)", "C07-R17": "the clone functions of dnsmsg put no object of the source into the clone and return none of the source's objects to the pools", "C07-R18": "every rule list is built with a result cache of its own (shared with C12-R8)", "C07-R16": "UpstreamPlain.Exchange returns a UDP reply only when it passed validation; a failed TCP leg does not revive it (table shared with C17-R4)", "C07-R15": "ecscache.locFromReq builds a fresh location and never returns the GeoIP cache's shared one (shared with C05-R1)", "C07-R14": "slices of a cached urlfilter result are never aliased by a per-request accumulator (shared with C12-R13)", "C07-RC": "class rules (error chains, shadowed results, character classes, crossed arguments, pool constructors, array pools, loop completeness, loop-carried buffers, replacing setters, complete clones, Grow arithmetic, pooled-buffer escape, sorted searches, fresh decode targets, per-iteration objects, whole-message copies, codec guards) over the packages this property rests on", "C07-R13": "ECS cache key is an injective packing (flags in separate bits); filterResponse restores ID and question of the client's own request (shared with C02-R11)", "C07-R12": "a slice converted to an array pointer is pooled only under an exact capacity test (cap == N): windows into a larger buffer would overlap", "C07-R10": "pool constructors (syncutil.NewPool, sync.Pool.New) build every object and buffer anew; nothing captured or global is shared between pooled objects", "C07-R11": "same-typed arguments are not crossed at calls of repository functions (argument names vs parameter names)", "C07-R9": "a pooled upstream connection is closed after any failed exchange (table shared with C17-R4)", "C07-R1": "pooled objects fully re-initialised", "C07-R2": "no use after release", "C07-R3": "dispose gates and order",
+			Rules: map[string]string{"C07-R25": "no function of the message, cache, filter and request-pipeline packages (init aside) stores through a package-level variable: there is no record template or other object shared by all requests that is filled in per request", "C07-R24": "the simple cache hands out copies: every record that fromCacheItem puts into a served message is a dns.Copy of the cached record on every path (the server disposes of served messages into the cloner's pools, where they are overwritten by other clients' answers)", "C07-R23": "every server's rate-limit / request-info middleware is built from a configuration object of its own (shared with C15-R6): a constructor that keeps its configuration sees this server's group, filtering group and device finder, not the last server's", "C07-R21": "the rule list compiled from a profile's custom rules has no result cache (rulelist.ResultCacheEmpty): the cache key has neither the device name nor the address, which $client rules look at, so one device's verdict would be served to the profile's other devices", "C07-R22": "address objects obtained from a connection (LocalAddr, RemoteAddr) are shared by every session of that connection and are never written: every store into a field of a net.UDPAddr / net.TCPAddr in netext and bindtodevice goes to an object allocated in the same function", "C07-R20": "the plain forwarder unpacks exactly the bytes of this read (buf[:n]), never the rest of a pooled buffer that still holds an earlier response (shared with C17-R4)", "C07-R19": "rule lists that are shared by all profiles are asked without the requester's device name; only the profile's own custom list gets it (shared with C02-R3)", "C07-R17": "the clone functions of dnsmsg put no object of the source into the clone and return none of the source's objects to the pools", "C07-R18": "every rule list is built with a result cache of its own (shared with C12-R8)", "C07-R16": "UpstreamPlain.Exchange returns a UDP reply only when it passed validation; a failed TCP leg does not revive it (table shared with C17-R4)", "C07-R15": "ecscache.locFromReq builds a fresh location and never returns the GeoIP cache's shared one (shared with C05-R1)", "C07-R14": "slices of a cached urlfilter result are never aliased by a per-request accumulator (shared with C12-R13)", "C07-RC": "class rules (error chains, shadowed results, character classes, crossed arguments, pool constructors, array pools, loop completeness, loop-carried buffers, replacing setters, complete clones, Grow arithmetic, pooled-buffer escape, sorted searches, fresh decode targets, per-iteration objects, whole-message copies, codec guards) over the packages this property rests on", "C07-R13": "ECS cache key is an injective packing (flags in separate bits); filterResponse restores ID and question of the client's own request (shared with C02-R11)", "C07-R12": "a slice converted to an array pointer is pooled only under an exact capacity test (cap == N): windows into a larger buffer would overlap", "C07-R10": "pool constructors (syncutil.NewPool, sync.Pool.New) build every object and buffer anew; nothing captured or global is shared between pooled objects", "C07-R11": "same-typed arguments are not crossed at calls of repository functions (argument names vs parameter names)", "C07-R9": "a pooled upstream connection is closed after any failed exchange (table shared with C17-R4)", "C07-R1": "pooled objects fully re-initialised", "C07-R2": "no use after release", "C07-R3": "dispose gates and order",
 				"C07-R4": "caches clone in and out", "C07-R5": "deep-copy discipline; clone/dispose tables agree", "C07-R6": "who writes RequestInfo",
 				"C07-R8": "pooled receive buffers: no use after Put, no Put by the creator after hand-over to a worker, no Put while a returned object keeps a slice of the buffer (shared with C06-R2)"},
 		}})
@@ -176,6 +176,10 @@ func c07CallerSets(typ, field string) (string, bool) {
 }
 
 func runC07(c *an.Ctx) {
+	c.Floor("C07-R25", 1)
+	if n := sharedNoGlobalMutation(c, "C07-R25", "dnsmsg.", "ecscache.", "dnssvc", "filter/", "agd."); n < 100 {
+		c.Und("C07-R25", "functions scanned", 0, "%d functions scanned, at least 100 expected", n)
+	}
 	// ---- R24: simple-cache hits are built from copies
 	c.Floor("C07-R24", 1)
 	c07CacheHitCopies(c, "C07-R24")
